@@ -397,6 +397,15 @@ impl FrameQueue {
     }
     */
 
+#[cfg(uflow_verif)]
+impl FrameQueue {
+    /// (window base, log base, log next, log length, rate_limited flag, loss interval count, pending feedback present)
+    pub fn verif_probe(&self) -> (u32, u32, u32, usize, bool, usize, bool) {
+        (self.window.base_id, self.frame_log.base_id, self.frame_log.next_id, self.frame_log.frames.len(), self.rate_limited,
+         self.feedback_gen.loss_intervals.verif_len(), self.feedback_gen.ack_data.is_some())
+    }
+}
+
 #[cfg(test)]
 mod tests {
     use super::*;
